@@ -416,8 +416,13 @@ func TestVerifC05(t *testing.T) {
 			r.Cap("time budget reached before all scenarios were explored")
 			break
 		}
+		if vsched.FreePass(r.Add, func() vsched.Scenario { return c05Build(t, r, j.sc) }) {
+			continue // race-detector pass: the same thread bodies, free-running, in a binary built with -race
+		}
 		vsched.Explore(r, mk(j.sc, j.bound))
 		r.Add("scenarios", 1)
 	}
-	r.Add("distinct_nontrivial", r.Get("schedules"))
+	if vsched.FreeRuns() == 0 {
+		r.Add("distinct_nontrivial", r.Get("schedules"))
+	}
 }
